@@ -20,7 +20,7 @@ CLAIMS = {
              "say (H-OPTS), its matches in a buffer are exactly the matches of the stripped lines (H-LOC, the assumption under "
              "which (a)'s table matchers stand for RegexMatcher), and the literal prefilter drops no line (H-PREFILTER). Bounded, "
              "not a proof; the right level because the quantifiers (all lines, all configurations) are exactly what the solver ranges over.",
-        note="Bounds: shapes of <=5 lines/<=9 bytes, A,B<=2; L=7 (quick) / 10 (thorough); pattern corpus = curated + repo test "
+        note="Bounds: shapes of <=4 lines/<=8 bytes, A,B<=2; L=7 (quick) / 8 (thorough); pattern corpus = curated + repo test "
              "patterns + grammar enumeration + seeded random (sizes in evidence). Automata with >120 core states (big Unicode classes) "
              "are decided over ASCII lines only. Trusted: regex-syntax's parser/translator, memchr (loop model), that regex-automata "
              "implements HIR semantics (checked differentially on every program). Outside: CLI flag mapping (hiargs.rs), \\A/\\z, "
@@ -47,7 +47,7 @@ CLAIMS = {
              "terminator (H-TERM), no match contains a byte declared non-matching (H-NMB), the fast candidate-line regex (H-PREFILTER) "
              "and the inner-literal extractor's output on every pattern (H-EXTRACT) never miss a matching terminator-free line. "
              "unsat = holds for every input within the bound; sat = witness replayed through the real matcher.",
-        note="Bounds: L=7/10; corpus sizes in evidence; ASCII-only for big automata and Unicode word boundaries (as the property "
+        note="Bounds: L=7/8; corpus sizes in evidence; ASCII-only for big automata and Unicode word boundaries (as the property "
              "allows). Programs are enumerated, inputs are solved. Trusted: regex-syntax; encoder validated against regex-automata each run; "
              "1 query in 50 re-asked of cvc5.",
         technique=H_TECH,
@@ -64,7 +64,7 @@ CLAIMS.update({
              "solver-chosen paths: one path per satisfiable combination of member verdicts for random and for RELATED member sets "
              "(same strategy, nested prefixes/suffixes), real GlobSet::matches vs each member alone (G-SET). Kani lemmas on fully "
              "symbolic 6-byte paths for pathutil::file_name / file_name_ext (the pieces the strategies look at).",
-        note="Bounds: L=7/10 bytes, all byte values (non-UTF-8 included); corpus = repo test globs + all 1-2 token strings + seeded random "
+        note="Bounds: L=7/8 bytes, all byte values (non-UTF-8 included); corpus = repo test globs + all 1-2 token strings + seeded random "
              "3-4 token strings + curated, x option sets. G-SET is concrete execution of the real set on solver-generated inputs (labelled "
              "so in the evidence), not a symbolic encoding of the hash-map/Aho-Corasick dispatch. `**` and `{}` are outside G-MEAN's reference.",
         technique=H_TECH + "; Kani lemmas for the path pieces",
@@ -193,7 +193,7 @@ CLAIMS.update({
         text="Pieces only. (1) Searcher half, Kani: in every C03/C02/C13/C14 harness the recording sink compares the bytes of each delivered "
              "match/context line with the input at the reported absolute offset and checks the reported line number -- 'delivered lines and "
              "coordinates are the input's own' holds for every explored run. (2) JSON half, Kani on fully symbolic bytes: Data::from_bytes chooses Text iff the bytes are valid UTF-8 (independent validator) "
-             "and preserves them (quick); jsont's base64 encoder round-trips every <=4-byte input against an RFC 4648 reference decoder (thorough tier only: ~10 min, 7-13 GB). (3) trim_line_terminator removes exactly the terminator of a line anywhere in a fully symbolic buffer. (4) submatch spans: find_iter_at_in_context lemmas (shared with C10).",
+             "and preserves them. (3) trim_line_terminator removes exactly the terminator of a line anywhere in a fully symbolic buffer. (4) submatch spans: find_iter_at_in_context lemmas (shared with C10).",
         note="NOT covered: the Standard printer's formatting (column, separators, --vimgrep per-match attribution, CRLF trimming in the "
              "multi-line slow printers) and the JSON message framing through serde_json: symbolic execution of that code (fmt, termcolor, "
              "serde) did not come within reach of CBMC. Changes confined to those printer paths are not detected by this check.",
